@@ -4,7 +4,7 @@
 From Coq Require Import ZArith NArith List String Bool.
 From CB Require Import Crypto.Alg Crypto.AlgPairing Crypto.Transcript Crypto.SigmaGeneric Crypto.SigmaCodec
   Crypto.Sigma_dlog Crypto.Sigma_com_eq Crypto.Sigma_com_enc_eq Crypto.Sigma_com_mult Crypto.Sigma_aggregate_dlog
-  Crypto.Sigma_enc_trans Crypto.Sigma_com_lin Crypto.Sigma_com_eq_diff Crypto.Sigma_vcom_eq Crypto.Sigma_com_eq_sig.
+  Crypto.Sigma_enc_trans Crypto.Sigma_com_lin Crypto.Sigma_com_eq_diff Crypto.Sigma_vcom_eq Crypto.Sigma_com_eq_sig Crypto.Sigma_ps_sig_known.
 Import ListNotations.
 Local Open Scope Z_scope.
 Local Open Scope bool_scope.
@@ -215,3 +215,64 @@ Definition X_com_eq_sig : xproto := {|
      && list_geq (cs_cmts s) (map (fun v => hideZ (cs_g s) (cs_h s) (fst v) (snd v)) vals)
      && geq (fmul (cs_b s) (cs_gt s))
             (fmul (cs_a s) (fadd (cs_xt s) (fadd (msm (M:=ZrG) (map fst vals) (cs_yts s)) (fmul r' (cs_gt s))))) |}.
+
+(** PsSigKnown as the harness builds it: message i is EqualToCommitment / Public / Known for i mod 3 = 0 / 1 / 2.
+    pubs = [n; a_hat; b_hat] ++ (commitment | public value | nothing per message) ++ [pk.g; pk.g_tilda] ++ ys(l) ++
+    y_tildas(l) ++ [x_tilda; cmm_g; cmm_h]; wit = [n; r'] ++ (m_i, r_i per message); resp = [n; z_r'] ++ (2 | 0 | 1 scalars) *)
+Fixpoint pss_msgs (n : nat) (i : nat) (l : list Z) : list (psmsg Z Z) * list Z :=
+  match n with
+  | O => ([], l)
+  | S n' =>
+    match Nat.modulo i 3 with
+    | 0%nat => let '(ms, r) := pss_msgs n' (S i) (tl l) in (MEq (nz l 0) :: ms, r)
+    | 1%nat => let '(ms, r) := pss_msgs n' (S i) (tl l) in (MPub (nz l 0) :: ms, r)
+    | _ => let '(ms, r) := pss_msgs n' (S i) l in (MKnown :: ms, r)
+    end
+  end.
+Fixpoint pss_wits (n : nat) (i : nat) (l : list Z) : list (psval Z) :=
+  match n with
+  | O => []
+  | S n' =>
+    (match Nat.modulo i 3 with 0%nat => VEq (nz l 0) (nz l 1) | 1%nat => VPub | _ => VKnown (nz l 0) end)
+    :: pss_wits n' (S i) (tl (tl l))
+  end.
+Fixpoint pss_resps (n : nat) (i : nat) (l : list Z) : list (psval Z) :=
+  match n with
+  | O => []
+  | S n' =>
+    match Nat.modulo i 3 with
+    | 0%nat => VEq (nz l 0) (nz l 1) :: pss_resps n' (S i) (tl (tl l))
+    | 1%nat => VPub :: pss_resps n' (S i) l
+    | _ => VKnown (nz l 0) :: pss_resps n' (S i) (tl l)
+    end
+  end.
+Definition rec1 (c z w : Z) : Z := fadd z (fmul c w).
+Fixpoint pss_recover_go (c : Z) (zs ws : list (psval Z)) : list (psval Z) :=
+  match zs, ws with
+  | VEq a b :: zs', VEq m r :: ws' => VEq (rec1 c a m) (rec1 c b r) :: pss_recover_go c zs' ws'
+  | VPub :: zs', VPub :: ws' => VPub :: pss_recover_go c zs' ws'
+  | VKnown a :: zs', VKnown m :: ws' => VKnown (rec1 c a m) :: pss_recover_go c zs' ws'
+  | _, _ => []
+  end.
+Fixpoint pss_relb_go (g h : Z) (msgs : list (psmsg Z Z)) (ws : list (psval Z)) : bool :=
+  match msgs, ws with
+  | [], [] => true
+  | MEq C :: msgs', VEq m r :: ws' => geq C (hideZ g h m r) && pss_relb_go g h msgs' ws'
+  | MPub _ :: msgs', VPub :: ws' => pss_relb_go g h msgs' ws'
+  | MKnown :: msgs', VKnown _ :: ws' => pss_relb_go g h msgs' ws'
+  | _, _ => false
+  end.
+Definition X_ps_sig_known : xproto := {|
+  xp := pss_proto (P:=ZrPair) (MC:=ZrG) ZrCodec ZrCodec2 ZrCodecT ZrCodec;
+  x_stmt := fun p0 => let n := Z.to_nat (nz p0 0) in
+    let '(msgs, p) := pss_msgs n 0 (skipn 3 p0) in
+    let l := Nat.div (List.length p - 5) 2 in
+    @mkPss ZrF ZrPair ZrG (nz p0 1) (nz p0 2) msgs (nz p 0) (nz p 1)
+           (firstn l (skipn 2 p)) (firstn l (skipn (2 + l) p)) (nz p (2 + 2 * l)) (nz p (3 + 2 * l)) (nz p (4 + 2 * l));
+  x_wit := fun w => (nz w 1, pss_wits (Z.to_nat (nz w 0)) 0 (skipn 2 w));
+  x_resp := fun z => (nz z 1, pss_resps (Z.to_nat (nz z 0)) 0 (skipn 2 z));
+  x_recover := fun s w c z => (rec1 c (fst z) (fst w), pss_recover_go c (snd z) (snd w));
+  x_relb := fun s w =>
+     pss_relb_go (ps_g s) (ps_h s) (ps_msgs s) (snd w)
+     && geq (fmul (ps_b s) (ps_gt s))
+            (fmul (ps_a s) (fadd (ps_xt s) (fadd (pss_sum (P:=ZrPair) (ps_msgs s) (snd w) (ps_yts s)) (fmul (fst w) (ps_gt s))))) |}.
